@@ -1,11 +1,15 @@
 #!/bin/bash
-# usage: seedcheck.sh <patch.diff> <PROPERTY> [extra check args]  -- applies the seeded change to /repo, runs the quick
-# check, undoes the change straight afterwards. Prints the tail of the check output and its exit code.
+# usage: seedcheck.sh <patch.diff> <PROPERTY> [extra check args]
+# Applies the seeded change to a scratch COPY of /repo's working tree (so that /repo itself is never touched and
+# other checks can run meanwhile), runs the check against it (KV_REPO), removes the copy.
 P=$1; PROP=$2; shift 2
-cd /repo && git diff --quiet || { echo "/repo has uncommitted changes"; exit 3; }
-git -C /repo apply "$P" || exit 3
-cd /verif && KV_EVIDENCE_DIR=/tmp/kw/seed_evidence ./check "$PROP" "${TIER:-quick}" "$@" > /tmp/kw/seedcheck.out 2>&1
+COPY=$(mktemp -d /tmp/kv_seedrepo_XXXX)
+rsync -a --exclude target --exclude .git /repo/ "$COPY/"
+( cd "$COPY" && git init -q . 2>/dev/null; git -C "$COPY" apply "$P" ) || { echo "patch does not apply"; rm -rf "$COPY"; exit 3; }
+OUT=$(mktemp /tmp/kv_seedcheck_XXXX.out)
+cd /verif && KV_REPO="$COPY" KV_EVIDENCE_DIR=/tmp/kw/seed_evidence ./check "$PROP" "${TIER:-quick}" "$@" > "$OUT" 2>&1
 rc=$?
-git -C /repo checkout -- .
-grep -E "VIOLATION|INCONCLUSIVE|KNOWN-FINDING|^  harness|^C[0-9]+ " /tmp/kw/seedcheck.out | cut -c1-400
+rm -rf "$COPY"
+grep -E "VIOLATION|INCONCLUSIVE|KNOWN-FINDING|^  harness|^C[0-9]+ " "$OUT" | cut -c1-300
 echo "exit=$rc"
+rm -f "$OUT"
